@@ -75,6 +75,7 @@ class Proc(object):
         self.ends = []             # history of ends [(how, value, time, seq)]
         self.start_pending = 0
         self.timers = {}           # handle -> Note
+        self.ev_pos_t = None       # last time a snapshot showed events addressed to this process
 
 
 class Analysis(object):
@@ -242,6 +243,9 @@ class SimOracle(object):
         for kv in t[3:]:
             k, v = kv.split("=", 1)
             self.lib[k] = v
+        for p in self.procs:
+            if self.lib_int("p%d.ev" % p.pid) > 0:
+                p.ev_pos_t = tm
         self.compare_model_with_library()
         self.ppre_in_event = {}
 
@@ -290,20 +294,23 @@ class SimOracle(object):
                     settled = p.pool.get(name, 0)
                     cur = p.cur
                     inflight = cur is not None and cur.name in ("pacq", "ppre") and cur.obj == name
+                    robbed = False
                     if inflight:
                         lo, hi = cur.base, cur.base + cur.n
                         if cur.last_g is not None and g != cur.last_g:
                             cur.progress_t = self.time
+                        # while an acquisition is in flight the holding can only grow, unless it is taken away
+                        robbed = cur.last_g is not None and g < cur.last_g
                         cur.last_g = g
                     else:
                         lo = hi = settled
-                    if lo <= g <= hi:
+                    if lo <= g <= hi and not robbed:
                         continue
                     callers = [(q.pid, q.prio) for q in self.procs if q is not p and q.cur is not None
                                and q.cur.name == "ppre" and q.cur.obj == name]
                     if name in self.ppre_in_event and self.ppre_in_event[name][0] != p.pid:
                         callers.append(self.ppre_in_event[name])
-                    if g < lo and callers:
+                    if (g < lo or robbed) and callers:
                         # a victim of a preemption in this event
                         cpid, cprio = max(callers, key=lambda c: c[1])
                         self.cls("pool-preempt-victim")
@@ -765,9 +772,12 @@ class SimOracle(object):
             c, tg, r = a[0], self.procs[int(a[1])], int(a[3])
             waiting = self.alive(tg) and tg.cur is not None and tg.cur.name == "cwait" and tg.cur.obj == c \
                 and not tg.cur.removed and tg.cur.evno < self.evno
+            already = any(n.kind == "ccancel" and not n.delivered and not n.dead for n in tg.notes)
+            if already:
+                waiting = False
             if waiting and not self.grant_pending(tg) and r != 1:
                 self.viol("C13", "C13/remove-result", "remove(%s, p%d) returned %d although it is waiting there" % (c, tg.pid, r))
-            if not waiting and r != 0:
+            if not waiting and r != 0 and not already:
                 self.viol("C13", "C13/remove-result", "remove(%s, p%d) returned %d although it is not waiting there" % (c, tg.pid, r))
             if r == 1 and waiting:
                 tg.cur.removed = True
@@ -800,7 +810,8 @@ class SimOracle(object):
             c = p.cur
             if c is None or c.name != "cwait" or c.removed:
                 continue
-            c.sat_seen[T] = True
+            if not c.sat_seen.get(T):
+                c.sat_seen[T] = int(t[1])        # seq of the first signal of this instant that found it satisfied
             if c.oblig is None:
                 c.oblig = (T, "explicit" if why == "explicit" else "forwarded")
 
@@ -821,7 +832,8 @@ class SimOracle(object):
             c = self.procs[int(pid)].cur
             if c is None or c.name != "cwait" or c.removed:
                 continue
-            c.sat_seen[T] = True
+            if not c.sat_seen.get(T):
+                c.sat_seen[T] = int(t[1])
             if c.oblig is None:
                 c.oblig = (T, "after-op")
 
@@ -839,8 +851,13 @@ class SimOracle(object):
                       "p%d: %s returned %d but no undelivered interrupt, timer, preemption, cancellation or stop "
                       "notification with that value is due now%s" % (p.pid, p.cur.name if p.cur else "?", sig, detail))
             return None
-        # prefer a mandatory one (so that obligations are discharged), oldest first
-        cands.sort(key=lambda n: (not n.mandatory,))
+        # If the value could come from an interrupt / preemption as well as from something else, assume
+        # the interrupt (its delivery voids the others, so nothing is demanded that may not hold);
+        # otherwise prefer a mandatory one so that obligations are discharged.
+        voiding = [n for n in cands if n.kind in ("interrupt", "poolpreempt", "respreempt")]
+        if voiding and len(cands) > len(voiding):
+            self.cls("ambiguous-notification-value")
+        cands.sort(key=lambda n: (n.kind not in ("interrupt", "poolpreempt", "respreempt"), not n.mandatory))
         n = cands[0]
         n.delivered = True
         if n.handle is not None:
@@ -937,8 +954,9 @@ class SimOracle(object):
             if any((not n.delivered and not n.dead and n.due == T and n.kind in ("ccancel", "poolpreempt"))
                    for n in v.notes):
                 continue            # v has already been taken out of the list, its wake-up is on its way
-            if c.name == "cwait" and not vc.sat_seen.get(T):
-                continue            # v's predicate was not true at a signal of this instant
+            if c.name == "cwait" and not (vc.sat_seen.get(T) and c.sat_seen.get(T)
+                                          and vc.sat_seen[T] <= c.sat_seen[T]):
+                continue            # v was not found satisfied by the signal that woke p (or an earlier one)
             if v.prio > p.prio:
                 self.viol("C06", "C06/lower-priority-served-first",
                           "p%d (priority %d, waiting since %s) was served on %s while p%d (priority %d, waiting since %s) "
@@ -951,6 +969,11 @@ class SimOracle(object):
                 # neither can have happened since p started waiting.
                 if vc.progress_t is not None and vc.progress_t >= c.t:
                     self.cls("c06-skipped-partial-progress")
+                    continue
+                if c.name != "cwait" and v.ev_pos_t is not None and v.ev_pos_t >= c.t:
+                    # something was scheduled for v since p arrived: it may have been woken in its turn,
+                    # found nothing left (the library may ring twice for one unit) and queued up again
+                    self.cls("c06-skipped-possibly-woken")
                     continue
                 if c.name != "cwait" and any(tm >= c.t and pid not in (p.pid, v.pid)
                                              for (tm, pid) in self.arrivals.get((c.obj, c.side), ())):
